@@ -30,7 +30,26 @@ type WFault struct {
 	// wrapping it, as a real file does (the caller must still find that exact
 	// error value in the chain it gets back).
 	Flavour string `json:"flavour,omitempty"`
+	// Temp: "" | "temporary" | "timeout": the error value (inside the PathError,
+	// if any) additionally has Temporary()/Timeout() methods answering true, as
+	// EAGAIN, EINTR or a deadline error from a real descriptor do. Nothing in
+	// the property exempts such errors: the call must still return them.
+	Temp string `json:"temp,omitempty"`
 }
+
+// simNetErr is an injected error with the Temporary/Timeout methods of
+// syscall.Errno and net.Error; it unwraps to the sentinel.
+type simNetErr struct{ temporary, timeout bool }
+
+func (e *simNetErr) Error() string {
+	if e.timeout {
+		return "simdisk: injected write failure (i/o timeout)"
+	}
+	return "simdisk: injected write failure (resource temporarily unavailable)"
+}
+func (e *simNetErr) Temporary() bool { return e.temporary }
+func (e *simNetErr) Timeout() bool   { return e.timeout }
+func (e *simNetErr) Unwrap() error   { return ErrInjected }
 
 // DiskWriter records everything written to it.
 type DiskWriter struct {
@@ -49,11 +68,14 @@ type DiskWriter struct {
 }
 
 func (w *DiskWriter) injected() error {
-	if w.Fault != nil && w.Fault.Flavour == "patherror" {
-		w.Injected = &fs.PathError{Op: "write", Path: "/sim/disk", Err: ErrInjected}
-	} else {
-		w.Injected = ErrInjected
+	var e error = ErrInjected
+	if w.Fault != nil && w.Fault.Temp != "" {
+		e = &simNetErr{temporary: w.Fault.Temp == "temporary", timeout: w.Fault.Temp == "timeout"}
 	}
+	if w.Fault != nil && w.Fault.Flavour == "patherror" {
+		e = &fs.PathError{Op: "write", Path: "/sim/disk", Err: e}
+	}
+	w.Injected = e
 	return w.Injected
 }
 
